@@ -16,6 +16,13 @@ NOTES = ("Every check = TLA+ specification under spec/ checked by TLC + conforma
          "known_findings.json lists genuine defects (known / fixed).")
 NOT_APPLICABLE = {}
 CHECKS = {
+    "C11": {
+        "level": "model_checking",
+        "technique": "TLA+ spec LineBreak.tla (greedy line filler as a transition system with Conservation/FitsWidth/Greedy invariants) model-checked by TLC; every paragraph laid out by layout.Layout with a metric-exact font under both text engines",
+        "text": "TLC explores the filler on every bounded paragraph, proving the three line-breaking clauses and termination on the model and emitting "
+                "words and geometry per line; the real layout must produce the same lines, positions, widths and heights (pango exact, go-text 0.05px).",
+        "note": "LTR, 1em-per-glyph font, no hyphenation/spacing/floats; two known findings (inline-box break rules; go-text pre-line).",
+    },
     "C10": {
         "level": "model_checking",
         "technique": "TLA+ spec BlockLayout.tla (used widths of CSS 2.1 10.3.3/10.4, margin collapsing 8.3.1 as recursive operators with TLC-checked equations) model-checked by TLC; every scenario laid out by layout.Layout and compared at 1/64 px",
